@@ -278,6 +278,37 @@ def stage_buffer_advanced_by_what_was_copied(ctx, P):
                       bad is None, function=p, site=site(b, bad) if bad is not None else site(b, i),
                       missing=None if bad is None else 'the buffer copied from at %s is emptied at %s with no emptiness test in between: what did not fit into the caller\'s buffer is lost' % (site(b, i), site(b, bad)))
     ctx.floor(P + ':S09-9:floor', 'copies out of a stage buffer into the caller\'s buffer', n, 8)
+    # the same for state machines that take their state apart (`match mem::replace(&mut self.state, Error) { Stage { buffer, .. } => ..`):
+    # after a copy out of the LOCAL stage buffer, every way to return either puts that buffer back into the state that is stored,
+    # or has tested that it is empty - a transition that leaves the buffer out drops whatever the caller's buffer had no room for
+    m = 0
+    for p, r in sorted(ctx.f.bodies.items()):
+        if not p.endswith('as std::io::Read>::read') or '::tests::' in p or r['nargs'] < 2:
+            continue
+        b = ctx.wrap(r)
+        defs = single_defs(b)
+        rets = set(b.returns())
+        for i, t in b.calls(r'Buf::copy_to_slice$|bytes::BytesMut::copy_to_slice$'):
+            if len(t['args']) < 2 or not has_origin(b.operand_origins(t['args'][1]), r'^param:2$'):
+                continue
+            rp = _root_place(b, t['args'][0], defs)
+            if rp is None or rp[1] or rp[0] <= r['nargs']:
+                continue        # a field of self stays where it is
+            L = rp[0]
+            if not re.match(r'(bytes::)?(BytesMut|Bytes)$|std::vec::Vec<u8>$', b.r['locals'][L]['ty'] or ''):
+                continue        # only an OWNED buffer can be dropped; a `&mut` binding into self stays where it is
+            m += 1
+            keeps = set(x for x, k, st in b.stmts(lambda st: st['r']['k'] == 'agg' and st['r'].get('ak') == 'adt'
+                                                   and any('l' in o and _root_place(b, o, defs) == rp for o in st['r']['o'])))
+            tests = set(j for j, tt in b.switches() if has_origin(b.switch_origins(j), r'call:.*(Buf::has_remaining|Buf::remaining|::is_empty|::len)$')
+                        and any(_root_place(b, c['args'][0], defs) == rp for jj, c in b.calls(r'(Buf::has_remaining|Buf::remaining|::is_empty|::len)$') if c['args'] and c.get('t') == j))
+            nxt = b.blocks[i]['t'].get('t')
+            wit = b.find_path(nxt, rets, removed=frozenset(keeps | tests)) if nxt is not None else None
+            ctx.check('%s:S09-9:stage-buffer-kept-or-empty:%s#%d' % (P, p, m), 'R-pair',
+                      'after handing out part of its local stage buffer, %s stores the buffer back into its state (or has found it empty) on every way to return' % p[1:].split(' as ')[0].split('::')[-1].split('<')[0],
+                      wit is None, function=p, site=site(b, i), witness=fmt_path(b, wit),
+                      missing=None if wit is None else 'a path returns after the copy at %s with the stage buffer neither stored nor tested for emptiness: its unread tail is dropped' % site(b, i))
+    ctx.floor(P + ':S09-9:kept:floor', 'copies out of a destructured stage buffer', m, 2)
 
 
 def zero_result_of_empty_request(ctx, P):
